@@ -1185,5 +1185,29 @@ func limitFailureReported(c *core.Ctx, R string) {
 			}
 		}
 		c.Check(R, wtMRRead+"/stale-reader-reports-the-sticky-failure", u.Pos(), sticky && eof, keyf("returns c.readErr on the failed edge: %v; io.EOF only off it: %v", sticky, eof))
+		// … but only a reader whose message was cut short: one that has delivered its message completely keeps its
+		// clean end (review of 474b14a) — the sticky return is also on the not-done edge of the reader's own flag
+		notDone := func(x *core.Unit, br core.Branch) int {
+			if br.IsCase {
+				return 0
+			}
+			if fieldOf(x.Info(), br.Cond) == "messageReader.done" {
+				return -1
+			}
+			return 0
+		}
+		okDone := false
+		for _, r := range returnsIn(u) {
+			if len(r.Stmt.Results) == 2 && fieldOf(info, r.Stmt.Results[1]) == "Conn.readErr" && g.GuardedBy(r.Loc, stale) {
+				okDone = g.GuardedBy(r.Loc, notDone)
+			}
+		}
+		sets := 0
+		for _, a := range fieldAssigns(u, "messageReader.done") {
+			if v, isK := core.ConstBool(info, a.Rhs); isK && v {
+				sets++
+			}
+		}
+		c.Check(R, wtMRRead+"/completed-reader-keeps-its-clean-end", u.Pos(), okDone && sets >= 1, keyf("sticky failure only for a reader that is not done: %v; done recorded where the message ends: %d site(s)", okDone, sets))
 	}
 }
